@@ -129,7 +129,7 @@ Definition cstep (c : hcfg) (st : hstate * list blk) (o : hop) : option (hstate 
           | _ => None
           end
       end
-  | HDeallocAll => Some (hp_deallocall s, [])
+  | HDeallocAll => match hp_deallocall c s with HOk s' => Some (s', []) | _ => None end
   end.
 
 Fixpoint crun (c : hcfg) (st : hstate * list blk) (ops : list hop) : option (hstate * list blk) :=
